@@ -182,6 +182,28 @@ def callSample : StExt.XProgram :=
     body := .cons (.assign "d" (.call "F0" (.cons (some "pa0") false (.lit none 7) .nil)))
       (.cons (.assign "d" (.bin .add (.var "d") (.call "F0" (.cons none false (.lit none 8) .nil)))) .nil) }
 
+open TrustVerif.StExt in
+/-- `FUNCTION F0 : DINT VAR_INPUT pa0 : DINT; END_VAR VAR lt0 : DINT := nosuch; END_VAR F0 := pa0; END_FUNCTION`
+`PROGRAM P VAR d : DINT; END_VAR d := F0(pa0 := 1); END_PROGRAM` -/
+def localInitUndefined : StExt.XProgram :=
+  { funcs := [{ name := "F0", ret := .int .dint,
+                params := [{ name := "pa0", ty := .int .dint, dir := .inp }],
+                locals := [{ name := "lt0", ty := .int .dint, init := some (.var "nosuch") }],
+                body := .cons (.assign "F0" (.var "pa0")) .nil }],
+    decls := [decl "d" (.int .dint)],
+    body := .cons (.assign "d" (.call "F0" (.cons (some "pa0") false (.lit none 1) .nil))) .nil }
+
+open TrustVerif.StExt in
+/-- `FUNCTION F0 : INT VAR_INPUT pa0 : INT; END_VAR VAR lt0 : INT := TRUE; END_VAR F0 := lt0; END_FUNCTION`
+`PROGRAM P VAR d : INT; END_VAR d := F0(pa0 := INT#1); END_PROGRAM` -/
+def localInitFamily : StExt.XProgram :=
+  { funcs := [{ name := "F0", ret := .int .int,
+                params := [{ name := "pa0", ty := .int .int, dir := .inp }],
+                locals := [{ name := "lt0", ty := .int .int, init := some (.blit true) }],
+                body := .cons (.assign "F0" (.var "lt0")) .nil }],
+    decls := [decl "d" (.int .int)],
+    body := .cons (.assign "d" (.call "F0" (.cons (some "pa0") false (.lit (some .int) 1) .nil))) .nil }
+
 def firstXCycle (p : StExt.XProgram) : CycleOut × Env × Nat :=
   let r := StExt.xcycle p 100 { store := p.initStore }
   (r.2, r.1.store.vars, r.1.store.frames.length)
